@@ -59,14 +59,22 @@ def generate(rnd, tier, index=0):
     d = 3 * base if tree else rnd.randint(1, 3)
     regime = "exact"
     if tree:
-        ops = [{"op": "fit", "rows": _tree_rows(rnd, cfg["arms"], rnd.randint(8, 24), base)}]
-        for _ in range(rnd.randint(1, 5)):
-            if rnd.random() < 0.3:
-                ops.append({"op": "partial_fit", "rows": _tree_rows(rnd, cfg["arms"], rnd.randint(2, 8), base)})
+        arms_now = list(cfg["arms"])
+        ops = [{"op": "fit", "rows": _tree_rows(rnd, arms_now, rnd.randint(8, 24), base)}]
+        for _ in range(rnd.randint(2, 7)):
+            u = rnd.random()
+            if u < 0.2 and spare:
+                # an arm added after fit gets its tree later, from a partial_fit (its own random_state matters too)
+                a = spare.pop(0)
+                arms_now.append(a)
+                ops.append({"op": "add_arm", "arm": a})
+                ops.append({"op": "partial_fit", "rows": _tree_rows(rnd, [a], rnd.randint(6, 12), base) +
+                            _tree_rows(rnd, arms_now, rnd.randint(0, 4), base)})
+            elif u < 0.45:
+                ops.append({"op": "partial_fit", "rows": _tree_rows(rnd, arms_now, rnd.randint(2, 8), base)})
             else:
                 ops.append({"op": rnd.choice(["predict", "expect"]), "Q": gen.gen_Q(rnd, rnd.randint(1, 5), d, "exact")})
-        if spare and rnd.random() < 0.4:
-            ops.insert(rnd.randint(0, len(ops)), {"op": "add_arm", "arm": spare[0]})
+        ops.append({"op": "expect", "Q": gen.gen_Q(rnd, rnd.randint(2, 6), d, "exact")})
     else:
         if cfg["np"] and cfg["np"][0] == "KNearest" and flags["default_np"]:
             pass
